@@ -89,16 +89,27 @@ class Sources:
             self.mods[path] = ModuleSource(path)
         return self.mods[path]
 
+    @staticmethod
+    def code_file(code):
+        fn = code.co_filename
+        if fn.startswith("<frozen ") and fn.endswith(">"):
+            # frozen stdlib module: its source file is the module's __file__
+            mod = sys.modules.get(fn[8:-1])
+            if mod is not None and getattr(mod, "__file__", None):
+                return mod.__file__
+        return fn
+
     def is_repo_function(self, f):
         """True if the function's source is executed symbolically (repository code or an inlined library file)."""
         code = getattr(f, "__code__", None)
         if code is None:
             return False
-        return self.is_repo_file(code.co_filename) or os.path.realpath(code.co_filename) in self.extra_files
+        fn = self.code_file(code)
+        return self.is_repo_file(fn) or os.path.realpath(fn) in self.extra_files
 
     def node_for_function(self, f):
         code = f.__code__
-        ms = self.module_source(code.co_filename)
+        ms = self.module_source(self.code_file(code))
         return ms.node_for_code(code), ms
 
     def is_repo_class(self, cls):
